@@ -149,6 +149,8 @@ dz_write_nxtr(struct zrng_s r, zif_t z, const char *zn)
 	char *restrict bp = gbuf;
 	const char *const ep = gbuf + sizeof(gbuf);
 	size_t ntr = zif_ntrans(z);
+	/* r.trno has 8 bits only, get the real index of the transition */
+	int trno = r.prev > STAMP_MIN ? zif_find_trans(z, r.prev) : 0;
 
 	if (r.next >= STAMP_MAX) {
 		bp += xstrlcpy(bp, never, bp - ep);
@@ -157,9 +159,9 @@ dz_write_nxtr(struct zrng_s r, zif_t z, const char *zn)
 	}
 	/* append next indicator */
 	bp += xstrlcpy(bp, nindi, bp - ep);
-	if (r.trno + 1U < ntr) {
+	if (trno + 1U < ntr) {
 		/* thank god there's another one */
-		stamp_t zdo = zif_troffs(z, r.trno + 1);
+		stamp_t zdo = zif_troffs(z, trno + 1);
 
 		if (r.next >= STAMP_MAX) {
 			goto never;
@@ -185,10 +187,12 @@ dz_write_prtr(struct zrng_s r, zif_t z, const char *zn)
 {
 	char *restrict bp = gbuf;
 	const char *const ep = gbuf + sizeof(gbuf);
+	/* r.trno has 8 bits only, get the real index of the transition */
+	int trno = r.prev > STAMP_MIN ? zif_find_trans(z, r.prev) : 0;
 
-	if (r.trno >= 1) {
+	if (trno >= 1) {
 		/* there's one before that */
-		stamp_t zdo = zif_troffs(z, r.trno - 1);
+		stamp_t zdo = zif_troffs(z, trno - 1);
 
 		bp += dz_strftr(bp, ep - bp, (struct ztr_s){r.prev, zdo});
 	} else {
